@@ -20,3 +20,8 @@ fn macro_errors_dup() {
     println!("{} and {}",  undefined_dup_a,  undefined_dup_b);
     let _arr = array![1,  undefined_dup_c];
 }
+
+// Item-level macro calls whose plugin diagnostics carry an inner span (the argument, not the item).
+compile_error!(3 + 4);
+
+compile_error!(   twice(1),  2);
